@@ -31,7 +31,9 @@ class Algebra:
         self.small = scope == "small"
         self.axioms = []   # (name, formula, provenance)
         if self.small:
-            self.Sim, self.sims = z3.EnumSort("Sim", [f"s{i}" for i in range(nsims)])
+            if nsims not in _ENUMS:
+                _ENUMS[nsims] = z3.EnumSort(f"SimE{nsims}", [f"s{i}" for i in range(nsims)])
+            self.Sim, self.sims = _ENUMS[nsims]
             self.T = z3.IntSort()
             self.D = z3.IntSort()
         else:
@@ -47,6 +49,7 @@ class Algebra:
             self.f_dlen = z3.Function("dlen", D, I)
             self.f_dtier = z3.Function("dtier", D, I, I)
             self.f_tlt = z3.Function("tlt", T, T, B)
+            self.f_tle = z3.Function("tle", T, T, B)
             self.f_plus = z3.Function("plus", T, D, T)
             self.f_comp = z3.Function("comp", D, D, D)
             self.f_dlt = z3.Function("dlt", D, D, B)
@@ -84,7 +87,7 @@ class Algebra:
         return t < u if self.small else self.f_tlt(t, u)
 
     def le(self, t, u):
-        return t <= u if self.small else z3.Or(t == u, self.f_tlt(t, u))
+        return t <= u if self.small else self.f_tle(t, u)
 
     def plus(self, t, d):
         return t + d if self.small else self.f_plus(t, d)
@@ -173,8 +176,16 @@ class Algebra:
         i, x, y, n = z3.Ints("i x y n")
         tlen, tier, tlt, plus, comp = self.f_tlen, self.f_tier, self.f_tlt, self.f_plus, self.f_comp
         dpre, dcut, dlen, dtier = self.f_dpre, self.f_dcut, self.f_dlen, self.f_dtier
-        le = lambda a, b: z3.Or(a == b, tlt(a, b))  # noqa: E731
+        le = self.f_tle
         A = self.axioms.append
+        self.derived = []   # consequences of the base axioms, added only to give the solver triggers
+        Dv = self.derived.append
+        A(("le_def", z3.ForAll([t, u], le(t, u) == z3.Or(t == u, tlt(t, u))), "definition of <= (total_ordering: lt or eq)"))
+        Dv(("le_trans", z3.ForAll([t, u, w], z3.Implies(z3.And(le(t, u), le(u, w)), le(t, w)))))
+        Dv(("lt_le_trans", z3.ForAll([t, u, w], z3.Implies(z3.And(tlt(t, u), le(u, w)), tlt(t, w)))))
+        Dv(("le_lt_trans", z3.ForAll([t, u, w], z3.Implies(z3.And(le(t, u), tlt(u, w)), tlt(t, w)))))
+        Dv(("le_total", z3.ForAll([t, u], z3.Implies(tlen(t) == tlen(u), z3.Or(le(t, u), tlt(u, t))))))
+        Dv(("le_not_gt", z3.ForAll([t, u], z3.Implies(le(t, u), z3.Not(tlt(u, t))))))
         # shape and tiers of t + d  (postcondition of TieredTime.__add__)
         A(("plus_shape", z3.ForAll([t, d], tlen(plus(t, d)) == dlen(d)), "TieredTime.__add__:post"))
         A(("plus_tier", z3.ForAll([t, d, i], z3.Implies(
@@ -220,6 +231,7 @@ class Algebra:
 
 
 _q = itertools.count()
+_ENUMS = {}
 
 
 # ======================================================================== heap handles
@@ -281,6 +293,8 @@ class Gen:
 
 class Bag:
     """a list described by single elements and generators (order abstracted away)"""
+
+    is_abstract_collection = True
 
     def __init__(self, parts=None, sort=None):
         self.parts = list(parts or [])   # each: ('one', guard, value) | Gen
@@ -354,6 +368,8 @@ class Model:
             "rt_start": z3.ArraySort(Sim, R), "newer": z3.ArraySort(Sim, B),
             "NSSd": z3.ArraySort(Sim, B), "NSSv": z3.ArraySort(Sim, T),
             "DATA": z3.ArraySort(Sim, self.Data),
+            # ghost: the time of the last step the simulator BEGAN (DESIGN 8: begun[s])
+            "BGd": z3.ArraySort(Sim, B), "BGv": z3.ArraySort(Sim, T),
         }
         self.J = 2  # small scope: parallel trigger edges per ordered pair
         self.events = None
@@ -390,7 +406,7 @@ class Model:
                 for c in a.sims:
                     v = z3.Const(f"{tag}.{k}[{c}]", rng)
                     arr = z3.K(a.Sim, v) if arr is None else z3.Store(arr, c, v)
-                    if k in ("P", "CSv", "LS", "OT", "NSSv"):
+                    if k in ("P", "CSv", "LS", "OT", "NSSv", "BGv"):
                         a.time_terms.append(v)
                         self.small_bounds.append(z3.And(v >= (-1 if k == "LS" else 0), v <= 8))
                 h[k] = arr
@@ -426,7 +442,7 @@ class Model:
 
     def background(self):
         """axioms assumed on every path (with provenance)"""
-        out = [ax for _, ax, _ in self.alg.axioms]
+        out = [ax for _, ax, _ in self.alg.axioms] + [ax for _, ax in getattr(self.alg, "derived", [])]
         a = self.alg
         if a.small:
             return list(self.small_bounds)
@@ -454,6 +470,7 @@ class Model:
                  "LS": mv(m, h0["LS"][c]), "OT": mv(m, h0["OT"][c]),
                  "type": {0: "time-based", 1: "event-based", 2: "hybrid"}.get(mv(m, self.typ(c)), "hybrid"),
                  "in_step": mv(m, h0["in_step"][c]),
+                 "begun": mv(m, h0["BGv"][c]) if mv(m, h0["BGd"][c]) is True else None,
                  "fwt": mv(m, self.fwt(c))}
             for nm, dd, vv in (("TA", self.TAd, self.TAv), ("ID", self.IDd, self.IDv), ("SU", self.SUd, self.SUv),
                                ("SW", self.SWd, self.SWv)):
@@ -553,6 +570,18 @@ class Model:
                 return h["started"][obj]
             if name == "type":
                 return SimType(self.typ(obj))
+            if name in ("step", "get_data", "setup_done", "stop"):
+                # SimRunner.step / get_data / ... are thin wrappers around proxy.send: external calls
+                return Builtin("SimRunner." + name, lambda it2, node2, *a2, name=name, obj=obj, **k2:
+                               Coro("ext_" + name, sim=obj, args=a2))
+            if name == "output_request":
+                return OutReq(self.out_req(obj))
+            if name == "outputs":
+                return OutputsH(obj)
+            if name == "output_to_push":
+                return PushH(obj)
+            if name == "timed_input_buffer":
+                return BufferH(obj)
             if name == "triggers":
                 return TrigH(obj)
             if name == "data":
@@ -595,6 +624,27 @@ class Model:
             if name == "pre_length":
                 return a.dpre(d)
             raise Unsupported(f"TieredInterval.{name}")
+        if isinstance(obj, PushH):
+            if name == "items":
+                return Builtin("output_to_push.items", lambda it2, node2, obj=obj: PushItems(self, obj.sim))
+            raise Unsupported(f"output_to_push.{name}")
+        if isinstance(obj, BufferH):
+            if name == "add":
+                def badd(it2, node2, *a2, obj=obj):
+                    it2.p.ghost.setdefault("events", []).append(("buffer_add", obj.sim, a2))
+                    return None
+                return Builtin("timed_input_buffer.add", badd)
+            raise Unsupported(f"timed_input_buffer.{name}")
+        if isinstance(obj, OutData):
+            if name == "get":
+                def oget(it2, node2, key, default=None, obj=obj):
+                    if key != "time":
+                        raise Unsupported("data.get of a key other than 'time'")
+                    return obj.time if it2.decide(obj.has_time) else default
+                return Builtin("data.get", oget)
+            raise Unsupported(f"data.{name}")
+        if isinstance(obj, TaskH):
+            return Builtin("task." + name, lambda it2, node2, *a2, **k2: None)
         if isinstance(obj, TrigH):
             if name == "items":
                 return Builtin("triggers.items", lambda it2, node2, obj=obj: TrigItems(self, obj.sim))
@@ -667,7 +717,10 @@ class Model:
 
             if name == "current_step":
                 self._set_opt(it, h, obj, "CSd", "CSv", v, node)
-                self.s.hook("ghost_set_current_step", it, obj, v, node)
+                if v is not None:
+                    # ghost: begun[sim] := the step that begins (BEGIN anchor, DESIGN section 8)
+                    h["BGd"] = z3.Store(h["BGd"], obj, h["CSd"][obj])
+                    h["BGv"] = z3.Store(h["BGv"], obj, h["CSv"][obj])
                 return True
             if name == "next_self_step":
                 self._set_opt(it, h, obj, "NSSd", "NSSv", v, node)
@@ -686,6 +739,11 @@ class Model:
                 return True
             if name == "rt_start":
                 put("rt_start", v)
+                return True
+            if name == "data":
+                if not isinstance(v, OutData):
+                    raise Unsupported("sim.data = <not a get_data reply>")
+                put("DATA", v.term)
                 return True
             r = self.s.hook("sim_setattr", it, obj, name, v, node)
             if r is not NotImplemented:
@@ -724,9 +782,16 @@ class Model:
             raise Unsupported("truthiness of a bag")
         if isinstance(v, SimType):
             return True
+        if isinstance(v, OutReq):
+            return v.nonempty
+        if isinstance(v, (OutData, TaskH)):
+            return True
         return NotImplemented
 
     def identical(self, it, a_, b_):
+        for x, y in ((a_, b_), (b_, a_)):
+            if isinstance(x, OutputsH) and y is None:
+                return S.Not(self.has_outputs(x.sim))
         for x, y in ((a_, b_), (b_, a_)):
             if isinstance(x, OptT) and y is None:
                 return S.Not(x.d)
@@ -844,7 +909,18 @@ class Model:
             return self.heap(it)["NS"][container.sim][t] > 0
         return NotImplemented
 
+    def setitem(self, it, obj, idx, v, node):
+        if isinstance(obj, OutputsH):
+            it.p.ghost.setdefault("events", []).append(("cache_write", obj.sim, idx))
+            return True
+        return NotImplemented
+
     def getitem(self, it, obj, idx, node):
+        if isinstance(obj, OutData):
+            return DataEnt2(obj, idx)
+        if isinstance(obj, DataEnt2):
+            it.check_raise(S.Not(self.has_attr(obj.data.term, obj.eid, idx)), "KeyError", node, "output not present in the reply")
+            return Opaque("output value")
         if isinstance(obj, HeapH):
             if idx != 0:
                 raise Unsupported("heap access other than [0]")
@@ -888,8 +964,10 @@ class Model:
     def iter_plan(self, it, x):
         if isinstance(x, SimsValues):
             return ("abstract", SimsColl(self))
-        if isinstance(x, (TrigItems, TrigList)):
+        if isinstance(x, (TrigItems, TrigList, PushItems, PushList)):
             return ("abstract", x)
+        if isinstance(x, list) and all(isinstance(t, TaskH) for t in x):
+            return ("concrete", x)
         if isinstance(x, DictItems):
             return ("abstract", DictColl(self, x))
         if isinstance(x, DictH):
@@ -933,7 +1011,7 @@ class Model:
                 for c in a.sims:
                     v = z3.Const(f"{tag}{n}.{k}[{c}]", rng)
                     arr = z3.K(a.Sim, v) if arr is None else z3.Store(arr, c, v)
-                    if k in ("P", "CSv", "LS", "OT", "NSSv"):
+                    if k in ("P", "CSv", "LS", "OT", "NSSv", "BGv"):
                         a.time_terms.append(v)
                 h[k] = arr
         self.small_sync(p, h)
@@ -947,6 +1025,9 @@ class Model:
         if lm is not None and o in lm:
             fields = lm[o]
         self.havoc_heap(it.p, fields, "loop")
+        top = getattr(self.s, "cur_contract", None)
+        if hasattr(top, "at_cut"):
+            it.p.ghost["region_start"] = dict(it.p.ghost["heap"])
         return True
 
     def unop(self, it, op, v):
@@ -1270,16 +1351,112 @@ class Model:
         raise Unsupported("schedule_step call without a contract in this session")
 
     def _gather(self, it, node, *coros, _star=None):
-        r = self.s.hook("gather", it, node, coros, _star)
-        if r is not NotImplemented:
-            return r
-        raise Unsupported("asyncio.gather")
+        items = Bag([("one", True, c) for c in coros])
+        if _star is not None:
+            if not isinstance(_star, Bag):
+                raise Unsupported("gather(*symbolic sequence)")
+            items.parts.extend(_star.parts)
+        return Coro("gather", items=items)
 
-    def _aio_wait(self, it, node, *args, **kw):
-        r = self.s.hook("aio_wait", it, node, args, kw)
-        if r is not NotImplemented:
-            return r
-        raise Unsupported("asyncio.wait")
+    def _aio_wait(self, it, node, tasks, **kw):
+        return Coro("wait", tasks=tasks, kw=kw)
+
+    def out_req(self, sim):
+        return z3.Function("has_output_request", self.alg.Sim, z3.BoolSort())(sim)
+
+    def has_outputs(self, sim):
+        """sim.outputs is not None  (cache enabled for this simulator)"""
+        return z3.Function("has_outputs", self.alg.Sim, z3.BoolSort())(sim)
+
+    def await_value(self, it, v, e, env):
+        if isinstance(v, Coro):
+            return self.suspend(it, e, v)
+        if isinstance(v, Bag):
+            raise Unsupported("await of a bag")
+        return NotImplemented
+
+    def suspend(self, it, node, coro):
+        """a cut point: the task gives up control.
+        1. the global invariant and the guarantee must hold NOW (obligations);
+        2. every shared location is havocked subject to the invariant and the rely;
+        3. the awaited primitive's postcondition is assumed."""
+        top = getattr(self.s, "cur_contract", None)
+        if not hasattr(top, "at_cut"):
+            raise Unsupported("await in a function whose contract has no concurrency rules")
+        p = it.p
+        h = p.ghost["heap"]
+        lab = it.oid(node)
+        for name, g in top.at_cut(it, h).items():
+            p.oblige(f"{lab}:cut:{name}", "cut", g, it.where(node), f"at this await: {name}")
+        old = dict(h)
+        self.havoc_heap(p, None, "aw")
+        h = p.ghost["heap"]
+        p.assume(top.rely(it, old, h))
+        p.ghost["region_start"] = dict(h)
+        p.ghost["cuts"] = p.ghost.get("cuts", 0) + 1
+        return self.resume(it, node, coro, h)
+
+    def resume(self, it, node, coro, h):
+        a = self.alg
+        p = it.p
+        k = coro.kind
+        if k == "gather":
+            for part in coro.kw["items"].parts:
+                if isinstance(part, Gen):
+                    post = self.coro_post(it, part.val, h)
+                    p.assume(a.all_var(part.var, S.Implies(part.guard, post)))
+                else:
+                    _, g, c = part
+                    if isinstance(c, Bag):
+                        for q in c.parts:
+                            if isinstance(q, Gen):
+                                p.assume(a.all_var(q.var, S.Implies(q.guard, self.coro_post(it, q.val, h))))
+                            else:
+                                p.assume(S.Implies(q[1], self.coro_post(it, q[2], h)))
+                    else:
+                        p.assume(S.Implies(g, self.coro_post(it, c, h)))
+            return Opaque("gather result")
+        if k == "wait":
+            # returns at an arbitrary later point (first completed or timeout): no postcondition
+            return (Opaque("done"), [TaskH()])
+        if k in ("ext_step", "ext_get_data", "ext_setup_done", "ext_stop"):
+            # the remote side may have closed the connection
+            if it.decide(p.fresh("connection_lost", "bool")):
+                it.raise_("ConnectionError", node, implicit="external call")
+            if k == "ext_step":
+                kind = p.fresh("reply_kind", "int")
+                p.assume(z3.And(kind >= 0, kind <= 2))
+                if it.decide(kind == 0):
+                    return None
+                if it.decide(kind == 1):
+                    r = p.fresh("next_step_reply", "int")
+                    p.ghost["step_reply"] = r
+                    return r
+                return Opaque("non-int reply")
+            if k == "ext_get_data":
+                term = p.fresh("data", self.Data)
+                return OutData(term, p.fresh("reply_has_time", "bool"), p.fresh("reply_time", "int"))
+            return None
+        if k in ("has_passed", "has_reached"):
+            p.assume(self.coro_post(it, coro, h))
+            return Opaque("triggered time")
+        if k in ("event_wait", "sleep"):
+            return None
+        raise Unsupported(f"await of {k}")
+
+    def coro_post(self, it, c, h):
+        """postcondition of Progress.has_passed / has_reached at resumption: the trigger
+        condition held when the waiter was resolved (contract of Progress.set) and is stable
+        because progress only grows (lemma wait_post_stable)"""
+        a = self.alg
+        if not isinstance(c, Coro):
+            raise Unsupported(f"gather of {c!r}")
+        if c.kind not in ("has_passed", "has_reached"):
+            return True
+        sim, target, shift = c.kw["sim"], self.unT(c.kw["target"]), c.kw["shift"]
+        prog = h["P"][sim]
+        at_dest = prog if shift is None else a.plus(prog, self.unD(shift))
+        return a.lt(target, at_dest) if c.kind == "has_passed" else a.le(target, at_dest)
 
     def havoc_value(self, it, nm, cur):
         if isinstance(cur, Bag):
@@ -1300,6 +1477,66 @@ class DataH:
 class DataEnt:
     def __init__(self, term, eid):
         self.term, self.eid = term, eid
+
+
+class OutReq:
+    def __init__(self, nonempty):
+        self.nonempty = nonempty
+
+
+class OutputsH:
+    def __init__(self, sim):
+        self.sim = sim
+
+
+class PushH:
+    def __init__(self, sim):
+        self.sim = sim
+
+
+class BufferH:
+    def __init__(self, sim):
+        self.sim = sim
+
+
+class OutData:
+    """the reply of get_data: which (eid, attr) are present (abstract term) and the optional 'time'"""
+
+    def __init__(self, term, has_time, time):
+        self.term, self.has_time, self.time = term, has_time, time
+
+
+class DataEnt2:
+    def __init__(self, data, eid):
+        self.data, self.eid = data, eid
+
+
+class TaskH:
+    pass
+
+
+class PushItems:
+    """sim.output_to_push.items(): ((eid, attr), [(dest_sim, time_shift, (dest_eid, dest_attr)), ...])"""
+
+    def __init__(self, M, sim):
+        self.M, self.sim = M, sim
+
+    def arbitrary(self, it):
+        M = self.M
+        return ((it.p.fresh("src_eid", M.alg.Str), it.p.fresh("src_attr", M.alg.Str)), PushList(M, self.sim))
+
+
+class PushList:
+    def __init__(self, M, sim):
+        self.M, self.sim = M, sim
+
+    def arbitrary(self, it):
+        M = self.M
+        a = M.alg
+        dest = it.p.fresh("push_dest", a.Sim)
+        d = it.p.fresh("push_delay", a.D)
+        it.p.assume(S.And(a.d_wf(d), a.dlen(d) >= 1) if not a.small else d >= 0)
+        return (dest, M.D_(d), (it.p.fresh("dest_eid", a.Str), it.p.fresh("dest_attr", a.Str)))
 
 
 class SimsColl:
